@@ -479,8 +479,18 @@ theorem save_out_independent_of_capture_partial (c1 c2 : Cap) (so : Option Nat) 
     have : classifyCmd rc = .ok := (classify_cmd rc).1.mpr h0
     simp [cmdExec, hk, this]
 
-/-- a python-action stores its text iff capturing -/
-theorem py_stored (text : List Char) : pyStored true text = some text ∧ pyStored false text = none := ⟨rfl, rfl⟩
+/-- **what reaches the live stream with capture off**: a python-action's text is shown at every verbosity and
+    never captured (verbosity only matters when capturing); a cmd-action with `io.capture` False hands the live
+    stream to the process when verbosity gives one and lets it inherit the descriptor otherwise -- shown or
+    inherited, never both, never captured; with `io.capture` None (any other falsy value) everything goes to
+    `os.devnull`. -/
+theorem live_rule_nocapture (v : Option Nat) (live : Bool) :
+    pyRoute false live = ⟨false, true, false⟩ ∧
+    pyRoute false (getOutErr v).1 = pyRoute false (getOutErr none).1 ∧
+    pyRoute false (getOutErr v).2 = pyRoute false (getOutErr none).2 ∧
+    cmdRoute .no live = ⟨false, live, !live⟩ ∧
+    cmdRoute .devnull live = ⟨false, false, false⟩ := by
+  refine ⟨rfl, rfl, rfl, rfl, rfl⟩
 
 /-! ## non-vacuity -/
 
@@ -545,6 +555,9 @@ example :
 
 example : (cmdExec false .no (some 1) 0 ['a'] []).values = [(1, .none)] ∧
     (cmdExec false .yes (some 1) 0 ['a'] []).values = [(1, .text ['a'])] := by decide
+
+example : (cmdRoute .no false).inherited = true ∧ (cmdRoute .no true).shown = true ∧ (pyRoute false false).shown = true := by
+  decide
 
 example : pyExec false (pyBody true false [.write, .flush, .print] (.rStr ['x']))
     = pyExec false (pyBody false true [.write, .flush, .print] (.rStr ['x'])) := by decide
